@@ -134,15 +134,25 @@ pub fn run(rest: &str) -> String {
         return json!({"hist": null, "fresh": null}).to_string();
     };
     let hist = full_queries(&host, &fs);
-    // fresh host from the final file contents and root only
-    let mut fs2 = MemFs::default();
-    fs2.files = fs.files.clone();
-    let mut host2 = AnalysisHost::new();
-    let rp = FilePath::from(Path::new(&root));
-    let rid = fs2.assign_or_get_file_id(rp.clone());
-    let rtext = fs2.files.get(&rp).cloned().unwrap_or_default();
-    host2.set_file_content(rid, Arc::from(rtext.as_str()));
-    host2.set_root_file(&mut fs2, rid);
-    let fresh = full_queries(&host2, &fs2);
+    // fresh host from the final file contents and root only - on a thread of its own, so that nothing a thread keeps between
+    // analyses (a thread-local) carries over from the history into the reference
+    let files2 = fs.files.clone();
+    let root2 = root.clone();
+    let fresh = match std::thread::spawn(move || {
+        let mut fs2 = MemFs::default();
+        fs2.files = files2;
+        let mut host2 = AnalysisHost::new();
+        let rp = FilePath::from(Path::new(&root2));
+        let rid = fs2.assign_or_get_file_id(rp.clone());
+        let rtext = fs2.files.get(&rp).cloned().unwrap_or_default();
+        host2.set_file_content(rid, Arc::from(rtext.as_str()));
+        host2.set_root_file(&mut fs2, rid);
+        full_queries(&host2, &fs2)
+    })
+    .join()
+    {
+        Ok(v) => v,
+        Err(e) => std::panic::resume_unwind(e),
+    };
     json!({"hist": hist, "fresh": fresh, "root": root}).to_string()
 }
